@@ -10,6 +10,7 @@ import (
 	"fmt"
 	"os"
 	"reflect"
+	"runtime/debug"
 	"strings"
 
 	flags "github.com/jessevdk/go-flags"
@@ -123,6 +124,9 @@ func runSessionOnce(t *Tree, sc *SessionScn) []*CallObs {
 					co.Panic = true
 					co.PanicMsg = toS(fmt.Sprint(r))
 					co.ErrKind = "panic"
+					if os.Getenv("VH_STACK") != "" {
+						fmt.Fprintf(os.Stderr, "panic: %v\n%s\n", r, debug.Stack())
+					}
 				}
 			}()
 			switch c.Op {
